@@ -31,6 +31,7 @@ THEOREMS = [
     "Pt.groups_valid", "Pt.lower_reshape_correct_C", "Pt.lower_reshape_correct_F",
     "Pt.lower_reshape_total",
     "Pt.pad_sound",
+    "Pt.lower_einsum_correct",
 ]
 
 
@@ -528,6 +529,109 @@ def gen_einsum(ctx):
                         node, data, np.asarray(expected))
 
 
+_EINSUM_CANON = "abc"
+
+
+def _einsum_specs(nop):
+    """all tuples of `nop` operand subscripts of rank <= 2 over <= 3 letters, canonical up to renaming
+    (letters named in order of first appearance), each with every output (any subset, any order)"""
+    ops = [""] + list(_EINSUM_CANON) + [a + b for a in _EINSUM_CANON for b in _EINSUM_CANON]
+    for specs in itertools.product(ops, repeat=nop):
+        m: dict[str, str] = {}
+        for sp in specs:
+            for ch in sp:
+                if ch not in m:
+                    m[ch] = _EINSUM_CANON[len(m)]
+        if tuple("".join(m[ch] for ch in sp) for sp in specs) != specs:
+            continue
+        used = sorted(set("".join(specs)))
+        for k in range(len(used) + 1):
+            for out in itertools.permutations(used, k):
+                yield specs, "".join(out)
+
+
+def _einsum_shapes(specs, top):
+    """every assignment of an axis length 0..top-1 to every operand axis that is consistent up to
+    length-1 broadcasting (per letter: all lengths equal, or 1)"""
+    occ = [ch for sp in specs for ch in sp]
+    for lens in itertools.product(range(top), repeat=len(occ)):
+        by: dict[str, set] = {}
+        for ln, ch in zip(lens, occ):
+            by.setdefault(ch, set()).add(ln)
+        if any(len(v - {1}) > 1 for v in by.values()):
+            continue
+        full = {ch: (next(iter(v - {1})) if v - {1} else 1) for ch, v in by.items()}
+        shapes, k = [], 0
+        for sp in specs:
+            shapes.append(tuple(lens[k:k + len(sp)]))
+            k += len(sp)
+        yield shapes, full
+
+
+def _einsum_case(specs, out, shapes, full):
+    import pytato as pt
+    sub = ",".join(specs) + "->" + out
+    arrs = [_data(shp, off=1 + 10 * i) for i, shp in enumerate(shapes)]
+    xs = [_ph(f"x{i}", shp) for i, shp in enumerate(shapes)]
+    # reference: NumPy on the operands broadcast to the full axis lengths (NumPy itself rejects some
+    # length-1 patterns, e.g. inside a diagonal, that pytato accepts)
+    bc = [np.broadcast_to(a, tuple(full[ch] for ch in sp)) for a, sp in zip(arrs, specs)]
+    expected = np.asarray(np.einsum(sub, *bc))
+    ins_w = "(" + " ".join("(" + " ".join(sp) + ")" for sp in specs) + ")"
+    out_w = "(" + " ".join(out) + ")"
+    shp_w = "(" + " ".join(ser.shape(shp) for shp in shapes) + ")"
+    arr_w = "(" + " ".join(f"({ser.shape(a.shape)} {ser.vals(a)})" for a in arrs) + ")"
+    return LCase("einsum_exh", {"subscripts": sub, "shapes": shapes}, pt.einsum(sub, *xs),
+                 {f"x{i}": a for i, a in enumerate(arrs)}, expected,
+                 f"(lower einsum {ins_w} {out_w} {shp_w})", f"(spec einsum {ins_w} {out_w} {arr_w})",
+                 structural=True)
+
+
+def gen_einsum_exh(ctx):
+    """map_einsum against the model (expression text + values) and NumPy: EVERY spec with <= 2 operands of
+    rank <= 2 over <= 3 letters (diagonals, any output order) x every consistent assignment of axis lengths
+    (0..3 for one operand, 0..2 [thorough: 0..3] for two) incl. every length-1 broadcast pattern; three
+    operands: a seeded sample of the same space"""
+    for specs, out in _einsum_specs(1):
+        for shapes, full in _einsum_shapes(specs, 4):
+            yield _einsum_case(specs, out, shapes, full)
+    top2 = 4 if ctx.thorough else 3
+    for specs, out in _einsum_specs(2):
+        for shapes, full in _einsum_shapes(specs, top2):
+            yield _einsum_case(specs, out, shapes, full)
+    rng = random.Random(ctx.seed * 389 + 21)
+    specs3 = list(_einsum_specs(3))
+    for _ in range(8000 if ctx.thorough else 800):
+        specs, out = rng.choice(specs3)
+        allsh = list(_einsum_shapes(specs, 3))
+        shapes, full = rng.choice(allsh)
+        yield _einsum_case(specs, out, shapes, full)
+
+
+def einsum_descriptors(ctx):
+    """the access descriptors pt.einsum builds (output axis = position in the output spec, reduction axes
+    numbered by first appearance) vs the model's, for every spec with <= 3 operands"""
+    import pytato as pt
+    from pytato.array import EinsumElementwiseAxis
+    queries, real = [], []
+    for nop in (1, 2, 3):
+        for specs, out in _einsum_specs(nop):
+            xs = [_ph(f"x{i}", (2,) * len(sp)) for i, sp in enumerate(specs)]
+            node = pt.einsum(",".join(specs) + "->" + out, *xs)
+            real.append("(" + " ".join(
+                "(" + " ".join(("e" if isinstance(d, EinsumElementwiseAxis) else "r") + str(d.dim) for d in ad) + ")"
+                for ad in node.access_descriptors) + ")")
+            ins_w = "(" + " ".join("(" + " ".join(sp) + ")" for sp in specs) + ")"
+            queries.append(f"(lower einsumdescrs {ins_w} ({' '.join(out)}))")
+    ans = common.driver_query_parallel(queries)
+    dis = 0
+    for q, a, r in zip(queries, ans, real):
+        if a != "ok " + r:
+            dis += 1
+            ctx.broken.append(f"correspondence:einsum-descriptors:{q}:real={r}:model={a}")
+    ctx.note_batch("einsum-access-descriptors", len(queries), dis, exhaustive=True)
+
+
 def gen_csr(ctx):
     import pytato as pt
     rng = random.Random(ctx.seed * 307 + 8)
@@ -561,7 +665,7 @@ def gen_csr(ctx):
 
 
 GENS = [gen_slice1d, gen_roll, gen_transpose, gen_reshape, gen_basic_nd, gen_stack_concat, gen_pad,
-        gen_advanced, gen_einsum, gen_csr]
+        gen_advanced, gen_einsum, gen_einsum_exh, gen_csr]
 
 
 # ---------------------------------------------------------------- processing
@@ -757,6 +861,7 @@ def run(ctx: common.Ctx):
             (name == "reshape" and ctx.thorough)
         ctx.note_batch(name, n, dis, exhaustive=exhaustive, kinds=kinds)
     pad_symbolic(ctx, prop="C02")
+    einsum_descriptors(ctx)
     # de-duplicate broken list (keep it short)
     ctx.broken = sorted(set(ctx.broken))[:50]
 
